@@ -83,16 +83,23 @@ class Table:
 ITER_EVENTS = ["table", "iterate", "clear", "is_running", "attrs"]
 
 
-@harness("C04.iter", quick=[dict(K=2)], thorough=[dict(K=3), dict(K=4, events=["table", "iterate", "is_running"], changing=[12]), dict(K=5, events=["table", "iterate"], changing=[12])])
-def iter_(ctx, K, events=None, changing=None):
-    """events / changing: restrictions used for the longer histories (which events may occur, which PIDs may change)"""
+SCRIPTS = [["table", "iterate", "table", "iterate", "iterate"], ["iterate", "table", "attrs", "iterate", "iterate"]]
+
+
+@harness("C04.iter", quick=[dict(K=2)] + [dict(K=len(s_), script=s_, changing=[7, 12]) for s_ in SCRIPTS[:1]],
+         thorough=[dict(K=3), dict(K=4, events=["table", "iterate", "is_running"], changing=[12]), dict(K=5, events=["table", "iterate"], changing=[12])]
+         + [dict(K=len(s_), script=s_) for s_ in SCRIPTS] + [dict(K=7, script=["iterate", "table", "iterate", "iterate", "table", "iterate", "iterate"], changing=[7, 12])])
+def iter_(ctx, K, events=None, changing=None, script=None):
+    """events / changing: restrictions used for the longer histories (which events may occur, which PIDs may change);
+    script: a fixed event skeleton (only the table contents stay symbolic) -- used for the passes-after-a-change histories in which
+    a PID lower than a cached one appears and the listing is then iterated twice more"""
     k = simk.Kernel(ctx)
     simk.system_files(k)
     t = Table(ctx, k)
     cache = {}     # reference of what the cache should hold: pid -> (object, incarnation)
     with k.installed():
         for step in range(K):
-            ev = ctx.choice(f"ev{step}", events or ITER_EVENTS)
+            ev = script[step] if script else ctx.choice(f"ev{step}", events or ITER_EVENTS)
             if ev == "table":
                 t.change(step, changing)
             elif ev == "clear":
@@ -236,14 +243,25 @@ def race(ctx, P):
             ctx.prove(val == sorted(val) and set(val) <= set(t.listed()), "race-ascending-listed", detail=f"thread {i}: {val}")
 
 
-@harness("C04.pid_exists")
-def pid_exists(ctx):
+@harness("C04.pid_exists", quick=[dict(status=s_) for s_ in ("ok", "EPERM", "EACCES", "ENOENT", "ESRCH-on-read", "no-tgid", "kill-EPERM")])
+def pid_exists(ctx, status="ok"):
     """pid_exists(n) for ONE unconstrained integer n: True exactly for the listed PIDs, False for thread ids, negative and
-    absent numbers, never an exception for a non-negative int"""
+    absent numbers, never an exception for a non-negative int -- also when /proc/<n>/status cannot be read (permission refused,
+    gone between kill() and open(), no Tgid line) or kill() answers EPERM (the task exists but belongs to someone else)"""
     k = simk.Kernel(ctx)
     simk.system_files(k)
     t = Table(ctx, k)
     n = ctx.int("n")
+    for p in t.listed() + [TID]:
+        path = f"/proc/{p}/status"
+        if status in ("EPERM", "EACCES", "ENOENT"):
+            k.files[path] = simk.oserr(getattr(errno, status), path)
+        elif status == "ESRCH-on-read":
+            k.files[path] = simk.fails_on_read(k, path)
+        elif status == "no-tgid":
+            k.files[path] = "Name:\tproc\nState:\tS (sleeping)\n"
+    if status == "kill-EPERM":
+        k.denied = set(t.listed() + [TID])
     with k.installed():
         try:
             r, exc = bool(psutil.pid_exists(n)), None
